@@ -247,6 +247,7 @@ Section Reparent.
       + unfold C4. destruct (N.eqb x oldp) eqn:E2.
         * apply N.eqb_eq in E2. subst x. fold st in Holdcan. rewrite H1 in Holdcan. discriminate.
         * apply (inv_I5c s HI); assumption.
+    - unfold s'. cbn. apply (inv_rnodup s HI).
   Qed.
 End Reparent.
 
